@@ -1,6 +1,8 @@
 import JrsVerif.Common.J
 import JrsVerif.Model.Loc
 import JrsVerif.Model.Tile
+import JrsVerif.Model.LocTrace
+import JrsVerif.Model.LocStrBlock
 
 namespace JrsVerif.Drv.C17
 open Lean JrsVerif.J JrsVerif.Loc
@@ -21,6 +23,38 @@ def isAsciiList (cs : List Char) : Bool := cs.all (fun c => c.toNat < 128)
 /-- start `(line, column)` of a printed location by the reference meaning -/
 def specStart (text : List Char) (o : Nat) : Option (Nat × Nat) :=
   (Spec.splitAt? text o).map (fun p => (Spec.line p.1, Spec.column p.1))
+
+/-- pieces between newlines: `n` newlines give `n + 1` pieces, the last one unterminated -/
+def splitNl : List Char → List (List Char)
+  | [] => [[]]
+  | c :: cs =>
+    match splitNl cs with
+    | [] => [[]]
+    | p :: ps => if c = '\n' then [] :: p :: ps else (c :: p) :: ps
+
+/-- second oracle for `blk.scan`, written by splitting into lines (no scanning state; no theorem
+    depends on it): `some (bump, truncate, lines)` iff the text starts with a well-formed block -/
+def refBlock (src : List Char) : Option (Nat × Bool × List (List Char)) :=
+  let (tr, s0) := match src with
+    | '-' :: t => (true, t)
+    | _ => (false, src)
+  match splitNl s0 with
+  | [] => none
+  | hdr :: ps =>
+    if !(hdr.all StrBlock.isHdr) || ps.isEmpty then none else
+    match ps.find? (fun l => !l.isEmpty) with
+    | none => none
+    | some first =>
+      let W := first.takeWhile StrBlock.isWs
+      if W.isEmpty then none else
+      let content := ps.dropLast.takeWhile (fun l => l.isEmpty || W.isPrefixOf l)
+      match ps.drop content.length with
+      | [] => none
+      | t :: _ =>
+        if W.isPrefixOf t || (t.dropWhile StrBlock.isWs).take 3 != StrBlock.bars then none else
+        let bump := (if tr then 1 else 0) + byteLen hdr + 1 + (content.map (fun l => byteLen l + 1)).sum
+                    + byteLen (t.takeWhile StrBlock.isWs) + 3
+        some (bump, tr, content.map (fun l => l.drop W.length))
 
 def handle (op : String) (j : Json) : Option Json :=
   match op with
@@ -72,6 +106,104 @@ def handle (op : String) (j : Json) : Option Json :=
         | none => .str "not-a-boundary"
         | some (pre, _) => toJson (Spec.line pre)
       some (obj [("spec", obj [("line", .arr (ats.map one).toArray)])])
+  | "loc.mstart" =>
+    -- {"files":[{"text":[code points],"at":[offset,…]},…]} → for every file, the reference (line,
+    -- column) of each planted frame IN THAT FILE (column only when the line prefix is ASCII)
+    match arr? j "files" with
+    | none => some (bad "loc.mstart: parse")
+    | some fs =>
+      let perFile (f : Json) : Json :=
+        match (do let t ← arr? f "text"; let q ← arr? f "at"; pure (chars t, nats q)) with
+        | none => .str "parse"
+        | some (text, ats) =>
+          .arr ((ats.map (fun o =>
+            match Spec.splitAt? text o with
+            | none => Json.str "not-a-boundary"
+            | some (pre, _) =>
+              let col : Json := if isAsciiList (Spec.linePrefix pre) then toJson (Spec.column pre) else .null
+              Json.arr #[toJson (Spec.line pre), col])).toArray)
+      some (obj [("spec", obj [("start", .arr (fs.map perFile))])])
+  | "loc.trace" =>
+    -- {"texts":[[code points],…],"names":[path,…],"frames":[[k,a,b] | null,…],"descs":[…],"msg":…,
+    --  "padding":n} → every line CompactFormat writes
+    match (do let ts ← arr? j "texts"; let ns ← arr? j "names"; let fr ← arr? j "frames"
+              let ds ← arr? j "descs"; let msg ← str? j "msg"; let pad ← nat? j "padding"
+              pure (natLists ts, strs ns, fr.toList, strs ds, msg, pad)) with
+    | none => some (bad "loc.trace: parse")
+    | some (ts, ns, fr, ds, msg, pad) =>
+      let texts := ts.map (fun t => t.map Char.ofNat)
+      let mk (f : Json) : Option Frame :=
+        match f with
+        | .arr a =>
+          match nats a with
+          | [k, x, y] => some { path := ns.getD k "?", text := texts.getD k [], a := x, b := y }
+          | _ => none
+        | _ => none
+      let fs := (fr.map mk).zip ds
+      some (obj [("model", obj [("lines", ofStrs (writeTrace pad msg fs))])])
+  | "loc.js" =>
+    -- {"texts":[[code points] per frame],"at":[start offset per frame]} → what JsFormat prints
+    -- (line, the record's column) and the reference (line, 1-based column)
+    match (do let ts ← arr? j "texts"; let q ← arr? j "at"; pure (natLists ts, nats q)) with
+    | none => some (bad "loc.js: parse")
+    | some (ts, ats) =>
+      let one (conv : Nat) (p : List Nat × Nat) : Json :=
+        let text := p.1.map Char.ofNat
+        match Spec.splitAt? text p.2 with
+        | none => .str "not-a-boundary"
+        | some (pre, _) =>
+          let col : Json := if isAsciiList (Spec.linePrefix pre) then toJson (Spec.column pre + conv) else .null
+          Json.arr #[toJson (Spec.line pre), col]
+      -- model: `jsFrameLoc` (theorem jsColumn_spec)
+      let m := (ts.zip ats).map (fun p =>
+        let text := p.1.map Char.ofNat
+        let r := jsFrameLoc text p.2 p.2
+        match Spec.splitAt? text p.2 with
+        | none => Json.str "not-a-boundary"
+        | some (pre, _) =>
+          let col : Json := if isAsciiList (Spec.linePrefix pre) then toJson r.2 else .null
+          Json.arr #[toJson r.1, col])
+      some (obj [("model", obj [("pos", .arr m.toArray)]),
+                 ("spec", obj [("pos", .arr ((ts.zip ats).map (one 0)).toArray)])])
+  | "loc.synerr" =>
+    -- {"text":…, "offset":n} → the location CompactFormat prints for an ImportSyntaxError
+    match (do let t ← arr? j "text"; let o ← nat? j "offset"; pure (chars t, o)) with
+    | none => some (bad "loc.synerr: parse")
+    | some (text, o) => some (obj [("model", obj [("printed", .str (syntaxErrorLoc text o).render)])])
+  | "blk.scan" =>
+    -- {"text":[code points of the text after `|||`]} → what the scanner does with it
+    match (do let t ← arr? j "text"; pure (chars t)) with
+    | none => some (bad "blk.scan: parse")
+    | some src =>
+      match StrBlock.scan src with
+      | none => some (obj [("model", obj [("panic", .str "model: slice inside a character or bump past the end")])])
+      | some o =>
+        let cls : String := match o.res with
+          | none => "ok"
+          | some .unexpectedEnd => "UnexpectedEnd"
+          | some .missingNewLine => "MissingNewLine"
+          | some .missingTermination => "MissingTermination"
+          | some .missingIndent => "MissingIndent"
+        let ok := o.res.isNone
+        let codes (l : List Char) : Json := ofNats (l.map Char.toNat)
+        let m := obj [
+          ("res", .str cls), ("collect", .str (if ok then "ok" else cls)), ("start", toJson (0 : Nat)),
+          ("bump", toJson o.bump),
+          ("truncate", if ok then toJson o.truncate else .null),
+          ("lines", if ok then .arr (o.lines.map codes).toArray else .null),
+          ("value", if ok then codes (StrBlock.value o.lines o.truncate) else .null)]
+        -- reference: a well-formed block must be accepted with exactly this bump, lines and value;
+        -- anything else must be rejected (error class and error bump are the model's business)
+        match refBlock src with
+        | some (bump, tr, lines) =>
+          let v := (lines.map (fun l => l ++ ['\n'])).flatten
+          some (obj [("model", m), ("spec", obj [
+            ("res", .str "ok"), ("collect", .str "ok"), ("start", toJson (0 : Nat)), ("bump", toJson bump),
+            ("truncate", toJson tr), ("lines", .arr (lines.map codes).toArray),
+            ("value", codes (if tr then v.dropLast else v))])])
+        | none =>
+          if ok then some (obj [("model", m), ("spec", obj [("res", .str "rejected-by-the-reference")])])
+          else some (obj [("model", m)])
   | "lex.tile" =>
     -- {"len":byte length,"ranges":[[s,e],…],"text":[code points]} : observation of the lexer output
     match (do let n ← nat? j "len"; let r ← arr? j "ranges"; let t ← arr? j "text"
